@@ -46,13 +46,13 @@ func (e *OpEngine) SizeThresholds() []int {
 						if _, oc := other.(*ssa.Const); !ok || oc || c.Value == nil || c.Value.Kind() != constant.Int {
 							continue
 						}
-						if v, exact := constant.Int64Val(c.Value); exact && v >= 4 && v <= 512 {
+						if v, exact := constant.Int64Val(c.Value); exact && v >= 4 && v <= 8192 {
 							set[int(v)] = true
 						}
 					}
 				case *ssa.MakeSlice:
 					if c, ok := x.Len.(*ssa.Const); ok && c.Value != nil && c.Value.Kind() == constant.Int {
-						if v, exact := constant.Int64Val(c.Value); exact && v >= 4 && v <= 512 {
+						if v, exact := constant.Int64Val(c.Value); exact && v >= 4 && v <= 8192 {
 							set[int(v)] = true
 						}
 					}
@@ -66,16 +66,19 @@ func (e *OpEngine) SizeThresholds() []int {
 	}
 	sort.Ints(out)
 	// at most three small (<= 40) and two large ones
-	var small, large []int
+	var small, large, huge []int
 	for _, v := range out {
 		if v <= 40 && len(small) < 3 {
 			small = append(small, v)
 		}
-		if v > 40 && len(large) < 2 {
+		if v > 40 && v <= 512 && len(large) < 2 {
 			large = append(large, v)
 		}
+		if v > 512 && len(huge) < 1 {
+			huge = append(huge, v)
+		}
 	}
-	out = append(small, large...)
+	out = append(append(small, large...), huge...)
 	e.thresholds = &out
 	return out
 }
@@ -97,7 +100,7 @@ func (e *OpEngine) smallThresholds() []int {
 func (e *OpEngine) largeThresholdShapes() [][]int {
 	var out [][]int
 	for _, c := range e.SizeThresholds() {
-		if c <= 40 {
+		if c <= 40 || c > 512 {
 			continue
 		}
 		out = append(out, []int{c + 1, 1})
@@ -123,9 +126,20 @@ func (e *OpEngine) thresholdShapes(minRank int) [][]int {
 // TensorMethodsInvokedBy lists the Tensor interface methods invoked (interface-mode call sites, resolved by
 // receiver type) from the functions of one package, plus the package-tensor constructors it calls mapped to
 // their cputensor names.
-func TensorMethodsInvokedBy(p *core.Program, a *spec.Anchors, pkg string) []string {
+func TensorMethodsInvokedBy(p *core.Program, a *spec.Anchors, pkg string, only ...string) []string {
 	set := map[string]bool{}
 	for _, fn := range p.ModuleFunctions(pkg) {
+		if len(only) > 0 {
+			keep := false
+			for _, o := range only {
+				if fn.Name() == o && fn.Parent() == nil {
+					keep = true
+				}
+			}
+			if !keep {
+				continue
+			}
+		}
 		var visit func(f *ssa.Function)
 		visit = func(f *ssa.Function) {
 			for _, b := range f.Blocks {
@@ -159,5 +173,18 @@ func TensorMethodsInvokedBy(p *core.Program, a *spec.Anchors, pkg string) []stri
 		out = append(out, n)
 	}
 	sort.Strings(out)
+	return out
+}
+
+// hugeThresholds: element-count constants between 513 and 8192 (parallel / blocked paths that only start at
+// thousands of elements).  Tensors that large are built from TWO symbols alternating along the flat index, so
+// that every result stays a small expression while each of the thousands of positions is still interpreted.
+func (e *OpEngine) hugeThresholds() []int {
+	var out []int
+	for _, v := range e.SizeThresholds() {
+		if v > 512 {
+			out = append(out, v)
+		}
+	}
 	return out
 }
